@@ -38,10 +38,18 @@ type rawRec struct {
 }
 
 func newRawRec(c *ev.Ctx, seed uint64, msize uint32) *rawRec {
+	return newRawRecOn(c, seed, msize, false)
+}
+
+func newRawRecOn(c *ev.Ctx, seed uint64, msize uint32, sock bool) *rawRec {
 	r := &rawRec{rf: recfs.New(seed), h: map[uint64]int{}}
 	r.rf.WGA = 1
 	srv := p9.NewServer(r.rf)
-	s, vr := newSess(srv, msize, v7)
+	var o *rawpeer.Options
+	if sock {
+		o = sockOpts()
+	}
+	s, vr := newSessOn(srv, msize, v7, o)
 	r.p, r.s = s.P, s
 	ok := vr.OK && s.attach(0, "").Errno() == 0
 	bind := func(fid uint64, name string) {
@@ -171,12 +179,13 @@ func c01Raw(c *ev.Ctx) {
 		return string(b)
 	}
 	idx := 2
-	for _, n := range lens {
+	for li := 0; li < 2*len(lens); li++ {
+		n, sock := lens[li%len(lens)], li >= len(lens)
 		idx++
 		if !c.Mine(idx) {
 			continue
 		}
-		rr := newRawRec(c, uint64(100+n), 1<<20)
+		rr := newRawRecOn(c, uint64(100+n), 1<<20, sock)
 		if rr == nil {
 			continue
 		}
@@ -239,19 +248,30 @@ func c01Raw(c *ev.Ctx) {
 		rr.p.Close()
 	}
 	// (c) walks of many components
-	for _, n := range []int{0, 1, 2, 16, 200} {
+	// (15 components of 65534 bytes: a frame of ~1 MB, far beyond a socket buffer)
+	wn := []int{0, 1, 2, 16, 200, -15}
+	for wi := 0; wi < 2*len(wn); wi++ {
+		n, sock := wn[wi%len(wn)], wi >= len(wn)
 		idx++
 		if !c.Mine(idx) {
 			continue
 		}
-		rr := newRawRec(c, uint64(900+n), 1<<20)
+		rr := newRawRecOn(c, uint64(900+n), 1<<20, sock)
 		if rr == nil {
 			continue
+		}
+		long := n < 0
+		if long {
+			n = -n
 		}
 		for _, wga := range []bool{false, true} {
 			names := []string{}
 			for i := 0; i < n; i++ {
-				names = append(names, "d"+mk(1+r.Intn(20), true))
+				if long {
+					names = append(names, "d"+mk(65534, true))
+				} else {
+					names = append(names, "d"+mk(1+r.Intn(20), true))
+				}
 			}
 			t := uint8(wire.Twalk)
 			if wga {
@@ -259,7 +279,7 @@ func c01Raw(c *ev.Ctx) {
 			}
 			mark := rr.rf.Len()
 			res := rr.p.RPC(t, u(1), u(50), names)
-			c.Case(fmt.Sprintf("raw:walk:%d:%v", n, wga), n > 0)
+			c.Case(fmt.Sprintf("raw:walk:%d:%v:long=%v:sock=%v", n, wga, long, sock), n > 0)
 			if !res.OK {
 				hang(c, res.Out, res.Dump, "C01:raw:walk-unanswered", n)
 				break
